@@ -3,6 +3,7 @@
 //     in meaning: the files are re-printed from their AST), perf.go additionally gets a scheduling point as
 //     the first statement of every top-level function;
 //   - internal/vsync/vsync.go (virtual package) and zz_verif_*.go (injected into package tensor).
+//
 // usage: mkoverlay -repo /repo -harness /verif/harness -out /verif/.build/ov [-realsync]
 package main
 
